@@ -531,3 +531,9 @@ func zzCheckAllKnown(db *DB, path string, c zzCfg, id string, trigger bool, key 
 	}
 	zzCheckAllT(db, path, c, id, trigger, key)
 }
+
+// ZZCheckAll is the exported entry to the accounting checks, for harnesses living in other packages
+// (command-line tool harnesses).
+func ZZCheckAll(db *DB, path string, pageSize int, noFLSync bool, id string) {
+	zzCheckAll(db, path, zzCfg{pageSize: pageSize, noFLSync: noFLSync}, id)
+}
